@@ -603,6 +603,9 @@ class Interp:
             base, v = self._deref(st, pl["l"])
             if v is not None and not [p for p in pl["p"] if p[0] != "d"]:
                 val = (REF, base)
+            elif v is not None and v[0] == PAIRS and all(p[0] == "d" or (p[0] == "f" and len(p) > 2 and self._newtype(p[2])) for p in pl["p"]):
+                # `&mut self.0` of a cursor struct that wraps the children (one field): the struct stands for its field
+                val = (REF, base)
             elif v is not None:
                 pv = self._place_val(st, pl)
                 if pv is not None:
@@ -614,6 +617,10 @@ class Interp:
                 val = pv if pv[0] == RULE else ("optdiscr", pv, rv["pl"]["l"])
         elif k == "agg" and "tuple" in rv and len(rv["ops"]) == 1:
             val = self._op_val(st, rv["ops"][0])
+        elif k == "agg" and len(rv["ops"]) == 1 and self._newtype(rv.get("adt") or ""):
+            val = self._op_val(st, rv["ops"][0])
+            if val is not None and val[0] != PAIRS:
+                val = None
         elif k == "agg" and rv.get("adt", "").endswith("::Option") and rv.get("variant") == "None" and "Pair" in " ".join(str(x) for x in [rv.get("adt_args", "")]):
             val = (OPT, frozenset(), True, None)
         elif k == "agg" and rv.get("adt", "").endswith("::Option") and rv.get("variant") == "Some" and rv["ops"]:
@@ -626,6 +633,11 @@ class Interp:
             st[lhs["l"]] = val
         else:
             st.pop(lhs["l"], None)
+
+    def _newtype(self, adt):
+        """a struct of the parser crate with exactly one field (a cursor / wrapper around the children of a pair)"""
+        a = self.F.adts.get(adt) if adt.startswith("tx3_lang::") else None
+        return bool(a) and not a.get("is_enum") and len(a["variants"]) == 1 and len(a["variants"][0]["fields"]) == 1
 
     def _feed(self, callee_path, argvals, caller=None, subst=None):
         f = self.F.fns.get(callee_path)
